@@ -2144,3 +2144,111 @@ func TestVerifC13TrackerGen(t *testing.T) {
 		return map[string]any{"steps": c13RunGCase(c)}
 	})
 }
+
+// ---------------------------------------------------------------------------------------------
+// part 8: long single-flow backlog on the real queue with the production capacity: the worker is held inside
+// the first task, k more tasks are emitted (channel, then overflow list), the worker is released; the ids
+// executed must be the ids accepted, in order.  No yield hooks: plain counting.
+// ---------------------------------------------------------------------------------------------
+
+type c13BCase struct {
+	K int `json:"k"`
+}
+
+type c13BRes struct {
+	K        int     `json:"k"`
+	ChanLen  int     `json:"chan_len"`
+	OverLen  int     `json:"over_len"`
+	OverCap  int     `json:"over_cap"`
+	Runs     [][]int `json:"runs"` // executed ids as maximal runs (first id, length) of consecutive ids
+	Executed int     `json:"executed"`
+	Idle     bool    `json:"idle"` // the worker was seen blocked in its select (or gone) with nothing more to run
+}
+
+func c13RunBCase(c c13BCase) (res c13BRes) {
+	res.K = c.K
+	p := NewUdpTaskPool()
+	defer p.Close()
+	key := NewUdpFlowKey(netip.AddrPortFrom(netip.AddrFrom4([4]byte{10, 1, 0, 1}), 4000),
+		netip.AddrPortFrom(netip.AddrFrom4([4]byte{198, 51, 100, 1}), 443))
+	var mu sync.Mutex
+	var executed []int
+	var worker int64
+	gate := make(chan struct{})
+	entered := make(chan struct{})
+	p.EmitTask(key, func() {
+		mu.Lock()
+		worker = c13Goid()
+		mu.Unlock()
+		close(entered)
+		<-gate
+		mu.Lock()
+		executed = append(executed, 0)
+		mu.Unlock()
+	})
+	<-entered
+	for i := 1; i <= c.K; i++ {
+		id := i
+		p.EmitTask(key, func() {
+			mu.Lock()
+			executed = append(executed, id)
+			mu.Unlock()
+		})
+	}
+	if v, ok := p.queues.Load(key); ok {
+		q := v.(*UdpTaskQueue)
+		q.enqueueMu.Lock()
+		res.ChanLen, res.OverLen, res.OverCap = len(q.ch), len(q.overflow), cap(q.overflow)
+		q.enqueueMu.Unlock()
+	}
+	close(gate)
+	deadline := c13SettleDeadline()
+	last, stableRounds := -1, 0
+	for time.Now().Before(deadline) {
+		time.Sleep(200 * time.Microsecond)
+		mu.Lock()
+		n := len(executed)
+		mu.Unlock()
+		if n == c.K+1 {
+			res.Idle = true
+			break
+		}
+		// fewer than accepted: only conclusive when the worker itself is idle (blocked in its select) or gone
+		st, alive := c13Statuses()[worker]
+		if n == last && (!alive || strings.HasPrefix(st, "select")) {
+			stableRounds++
+			if stableRounds >= 5 {
+				res.Idle = true
+				break
+			}
+		} else {
+			stableRounds = 0
+		}
+		last = n
+	}
+	mu.Lock()
+	defer mu.Unlock()
+	res.Executed = len(executed)
+	for i := 0; i < len(executed); {
+		j := i
+		for j+1 < len(executed) && executed[j+1] == executed[j]+1 {
+			j++
+		}
+		res.Runs = append(res.Runs, []int{executed[i], j - i + 1})
+		i = j + 1
+	}
+	if res.Runs == nil {
+		res.Runs = [][]int{}
+	}
+	return res
+}
+
+func TestVerifC13Backlog(t *testing.T) {
+	verifEachLine(t, func(line []byte) any {
+		var c c13BCase
+		if err := json.Unmarshal(line, &c); err != nil {
+			return map[string]string{"panic": "bad case: " + err.Error()}
+		}
+		return c13RunBCase(c)
+	})
+}
